@@ -297,7 +297,7 @@ class CouplingGraph(Collection[tuple[int, int]]):
         if num_deg_1 != 2:
             return False
 
-        return True
+        return self.is_fully_connected()
 
     def get_neighbors_of(self, qudit: int) -> list[int]:
         """Return the qudits adjacent to `qudit`."""
